@@ -36,6 +36,8 @@ ASSUMPTIONS = [
 MIN_NONTRIVIAL = 100
 REQUIRED_COUNTERS = ["gets", "same_object_hits", "reloads_after_modification", "lru_evictions_checked", "toplevel_misses", "vanished_file_exceptions", "failed_compiles_then_fixed"]
 REQUIRED_COUNTERS += ["referring_renders"]
+RULE += " a file-backed Template registered under a second URI by put_template, its file modified twice, both URIs read three times after each change."
+REQUIRED_COUNTERS += ["alias_gets"]
 
 _st = {}
 URIS = ["/t0.html", "/t1.html", "/t2.html", "/sub/t3.html", "/sub/t4.html", "/t5.html", "/sub/deep/t6.html", "/t7.html"]
@@ -327,6 +329,63 @@ def op_get(w, res, uri, hist, has=False):
                 expect_load((d, uri), reason)
 
 
+def run_alias(case, res):
+    """a file-backed Template registered under a SECOND URI with put_template: after its file is modified every
+    get_template of either URI returns a template of the new text - the first call after the change reloads, the
+    following ones return that very object - and a later modification is seen again"""
+    clock = _st["clock"]
+    ex = _st["exceptions"]
+    for moddir in (False, True):
+        for csize in (-1, 4):
+            base = tempfile.mkdtemp(prefix="c14a-")
+            try:
+                root = os.path.join(base, "root")
+                os.makedirs(root)
+                kw = {"module_directory": os.path.join(base, "mods")} if moddir else {}
+                lk = _st["TemplateLookup"](directories=[root], filesystem_checks=True, collection_size=csize, **kw)
+                fp = os.path.join(root, "a.html")
+
+                def write(v):
+                    with open(fp, "w") as f:
+                        f.write("A%d" % v)
+                    os.utime(fp, (clock.now, clock.now))
+
+                write(1)
+                clock.advance(3)
+                lk.put_template("/alias.html", lk.get_template("/a.html"))
+                last = {}
+                for v in (1, 2, 2, 3):
+                    if v != 1 and v not in last.get("seen", ()):
+                        clock.advance(3)
+                        write(v)
+                        clock.advance(3)
+                    last.setdefault("seen", set()).add(v)
+                    for rep in range(3):
+                        for uri in ("/alias.html", "/a.html"):
+                            res.evaluations += 1
+                            res.count("alias_gets")
+                            what = "a.html also registered as /alias.html by put_template (module_directory=%s, collection_size=%s), file now at version %d, get_template(%r) call %d" % (
+                                moddir, csize, v, uri, rep + 1)
+                            try:
+                                t = lk.get_template(uri)
+                                out = t.render_unicode()
+                            except ex.TemplateLookupException as e:
+                                res.violate("alias-lost", "%s raised %s: %s" % (what, type(e).__name__, e), witness="put_template under a second URI, then a modification of the file")
+                                continue
+                            except Exception as e:
+                                res.violate("alias-lost", "%s raised %s: %s" % (what, type(e).__name__, e))
+                                continue
+                            if out != "A%d" % v:
+                                res.violate("stale-after-modification", "%s rendered %r, the file holds %r" % (what, out, "A%d" % v))
+                            prev = last.get((uri, v))
+                            if prev is not None and t is not prev:
+                                res.violate("not-same-object", "%s returned a different Template object although nothing changed since the previous call" % what)
+                            last[(uri, v)] = t
+                res.nontrivial("alias", moddir, csize)
+            finally:
+                shutil.rmtree(base, ignore_errors=True)
+
+
 def run_referring(case, res):
     """freshness THROUGH a referring template: main.html stays cached and unchanged while a template it includes,
     inherits from or uses as a namespace is modified (a whole second later), deleted or replaced by put_string;
@@ -598,6 +657,7 @@ def run_case(case):
     k = case["kind"]
     if k == "referring":
         run_referring(case, res)
+        run_alias(case, res)
     elif k == "small":
         for ops in case["histories"]:
             for cfg in CONFIGS4:
